@@ -206,15 +206,15 @@ def value_cases(tier, rng, prefix, conv=False):
         add([[ex[i], ex[i + 1]], [ex[i + 2]]])
     if not conv:
         for rs in [[[]], [[a], []], [[], [a]]]: add(rs)          # empty entries: outside the domain
-    n = {"quick": 5000, "search": 15000, "thorough": 250000}[tier]
+    n = {"quick": 15000, "search": 30000, "thorough": 500000}[tier]
     if conv: n //= 2
     for _ in range(n):
         add(rand_relations(rng))
-    nbig = {"quick": 60, "search": 200, "thorough": 2000}[tier]
+    nbig = {"quick": 150, "search": 300, "thorough": 4000}[tier]
     for _ in range(nbig):
         add(rand_relations(rng, big=True))
     if not conv:
-        nbad = {"quick": 2500, "search": 8000, "thorough": 100000}[tier]
+        nbad = {"quick": 6000, "search": 12000, "thorough": 200000}[tier]
         for _ in range(nbad):
             rs = rand_relations(rng) or [[rand_relation(rng)]]
             i = rng.randrange(len(rs)); j = rng.randrange(len(rs[i]))
@@ -259,6 +259,19 @@ def text_cases(tier, rng, prefix):
               "a (>= 20230101120000)", "a (= 1:)", "a:any", "a :any", "a: any", "a\n", "\na", "a\u00a0", "\u00a0a\u2003, b\u3000",
               "a | b", "a |", "| a", "a,", ",a", "a,,b", "a, , b", "a <!x> <y !z>", "a <!x>b", "a [b]<c>", "a[b]", "a(= 1)"]:
         add(s)
+    # str::trim: every White_Space code point and its neighbours, at both ends of an entry and of an alternative
+    cps = set()
+    for lo, hi in [(8, 14), (0x1b, 0x21), (0x84, 0x86), (0x9f, 0xa1), (0x167f, 0x1681), (0x180d, 0x180f), (0x1fff, 0x200c),
+                   (0x2027, 0x202a), (0x202e, 0x2030), (0x205e, 0x2061), (0x2fff, 0x3001), (0xfefe, 0xff00)]:
+        cps.update(range(lo, hi + 1))
+    for cp in sorted(cps):
+        c = chr(cp)
+        add(c + "a" + c); add("a, " + c + "b" + c + " | " + c + "c" + c + ","); add("a" + c + "b")
+    # every ASCII character (and a few others) in every syntactic position
+    for c in [chr(i) for i in range(128)] + ["é", "٣", "中", "\U0001f600"]:
+        for t in ["a%sb", "a, b%s", "%sa", "a %s b", "a%s| b", "a:%sany", "a (>=%s1)", "a (>= 1%s)", "a (>= 1%s2)", "a [%s]", "a [b%sc]",
+                  "a <%s>", "a <b%sc>", "a <b> %s<c>", "a%s"]:
+            add(t % c)
     # every token sequence after a name, up to a length
     n = {"quick": 4, "search": 4, "thorough": 5}[tier]
     for k in range(0, n + 1):
@@ -266,7 +279,7 @@ def text_cases(tier, rng, prefix):
             add("a" + "".join(tup))
     m = {"quick": 3, "search": 3, "thorough": 4}[tier]
     for s in gen.exhaustive(gen.REL_ALPHABET, m): add(s)
-    ngen = {"quick": 6000, "search": 20000, "thorough": 200000}[tier]
+    ngen = {"quick": 15000, "search": 30000, "thorough": 400000}[tier]
     for _ in range(ngen):
         rs = rand_relations(rng)
         add(print_relations(rs))
@@ -293,7 +306,7 @@ def debversion_cases(tier, rng, prefix):
         add(s)
     n = {"quick": 4, "search": 5, "thorough": 6}[tier]
     for s in gen.exhaustive(DV_ALPHABET, n): add(s)
-    ngen = {"quick": 3000, "search": 10000, "thorough": 100000}[tier]
+    ngen = {"quick": 8000, "search": 15000, "thorough": 200000}[tier]
     for _ in range(ngen):
         v = rand_version(rng, big=rng.random() < 0.05)
         s = print_version(v)
